@@ -7,6 +7,7 @@ import Vore.Lemmas.GenR
 import Vore.Lemmas.SimR
 import Vore.Lemmas.TotalR
 import Vore.Lemmas.Flatten
+import Vore.Model.Trace
 /-!
 # Driver — line protocol: one case per input line, one result line per case.
 `<id> TAB <op> TAB <field> …`
@@ -213,6 +214,39 @@ def handleRun (fields : List String) : String :=
     | _, _ => "BADCASE"
   | _ => "BADCASE"
 
+/-- the fingerprint of the whole program's step sequence: the commands in order, each a traced `findMatches`
+(`findMatchesT_fst`: the traced run returns what `findMatches` returns); stops where `runProgram` stops.
+A replace command whose replacer panics still searched first, so its steps are counted. -/
+def traceProgram (text : Bytes) : List BCmd → Tr → Tr × Bool
+  | [], t => (t, true)
+  | c :: cs, t =>
+    let search (amt : Amount) (code : List Instr) : Tr × Bool :=
+      let r := findMatchesT procFuel vmFuel code amt text t
+      match r.1 with
+      | some (.ok _) =>
+        match runCmd procFuel vmFuel "text".toUTF8.toList text c with
+        | some (.ok _) => traceProgram text cs r.2
+        | _ => (r.2, false)
+      | _ => (r.2, false)
+    match c with
+    | .find amt code => search amt code
+    | .replace amt code _ => search amt code
+    | _ => traceProgram text cs t
+
+/-- `trace <ast> <text>`: step count and fingerprint of the model's run (correspondence level L5) -/
+def handleTrace (fields : List String) : String :=
+  match fields with
+  | ast :: text :: _ =>
+    match parseSExp ast >>= progOf, unhex text with
+    | some cmds, some t =>
+      match genProgram cmds {} with
+      | .error _ => "TR GENERR"
+      | .ok bc =>
+        let r := traceProgram t bc {}
+        if r.2 then s!"TR n={r.1.n} h={r.1.h}" else s!"TR incomplete n={r.1.n}"
+    | _, _ => "BADCASE"
+  | _ => "BADCASE"
+
 /-- `runmany <ast> <text,text,…> <implres|implres|…>`: one program on many texts (C10 enumeration) -/
 def handleRunMany (fields : List String) : String :=
   match fields with
@@ -247,6 +281,7 @@ def handle (line : String) : String :=
   match line.splitOn "\t" with
   | id :: "run" :: fields => id ++ "\t" ++ handleRun fields
   | id :: "runmany" :: fields => id ++ "\t" ++ handleRunMany fields
+  | id :: "trace" :: fields => id ++ "\t" ++ handleTrace fields
   | id :: op :: fields =>
     match Vore.Driver.extraOps.findSome? (fun h => h op fields) with
     | some r => id ++ "\t" ++ r
